@@ -1,8 +1,8 @@
 package worlds
 
 import (
-	"math"
 	"fmt"
+	"math"
 	"sort"
 	stdsync "sync"
 
@@ -524,6 +524,10 @@ func watchableEqualValues(r *R) {
 type ptrT struct{ n int }
 
 func mapScenario(r *R) {
+	if r.Choose(4, "map-concurrent") == 3 {
+		mapConcurrent(r)
+		return
+	}
 	if r.Choose(5, "ktype") == 4 {
 		// interface-typed keys, one of them the nil interface (sync.Map accepts it)
 		r.Probe("map-interface-keys")
@@ -704,10 +708,19 @@ func mapDiff[K comparable, V any](r *R, kname, vname string, keys []K, vals []V)
 				}()
 				xc, xs = run(func(f func(k, v any) bool) { m.Range(func(k K, v V) bool { return f(any(k), any(v)) }) },
 					func(k any) { kk, _ := k.(K); m.Delete(kk) },
-					func(k any) { kk, _ := k.(K); if _, ok := m.Load(kk); ok { m.Store(kk, v2) } })
+					func(k any) {
+						kk, _ := k.(K)
+						if _, ok := m.Load(kk); ok {
+							m.Store(kk, v2)
+						}
+					})
 			}()
 			sc, ss := run(func(f func(k, v any) bool) { ref.Range(f) }, func(k any) { ref.Delete(k) },
-				func(k any) { if _, ok := ref.Load(k); ok { ref.Store(k, v2) } })
+				func(k any) {
+					if _, ok := ref.Load(k); ok {
+						ref.Store(k, v2)
+					}
+				})
 			// which key came first depends on the map's iteration order, which the two maps need
 			// not share: bring both to the same contents again
 			for _, k := range keys {
